@@ -12,4 +12,11 @@ InPlusPrefix == << "a" >>
 \* left recursion with a nullable alternative: <l> ::= <l> <l> | "a" | ""
 RLeft == { [lhs |-> "S", rhs |-> <<"L">>], [lhs |-> "L", rhs |-> <<"L", "L">>], [lhs |-> "L", rhs |-> <<"a">>], [lhs |-> "L", rhs |-> <<>>] }
 InLeft == << "a" >>
+\* a nullable symbol expected a second time after it has been completed: <start> ::= <o> <x> ; <x> ::= <o> "c" ; <o> ::= "y"?
+RTwice == { [lhs |-> "S", rhs |-> <<"O", "X">>], [lhs |-> "X", rhs |-> <<"O", "c">>], [lhs |-> "O", rhs |-> <<>>], [lhs |-> "O", rhs |-> <<"y">>] }
+InTwice == << "c" >>
+\* left recursion followed by a nullable symbol: <start> ::= <e> "." ; <e> ::= <e> <o> | "x" ; <o> ::= "y"?
+RLeftOpt == { [lhs |-> "S", rhs |-> <<"E", ".">>], [lhs |-> "E", rhs |-> <<"E", "O">>], [lhs |-> "E", rhs |-> <<"x">>],
+              [lhs |-> "O", rhs |-> <<>>], [lhs |-> "O", rhs |-> <<"y">>] }
+InLeftOpt == << "x", "y", "." >>
 =============================================================================
